@@ -5,8 +5,14 @@ _get_tag_units_portion/value_as_default_unit/default_unit, UnitClassEntry.get_de
 table was built by the real loader: UnitEntry.finalize_entry/_get_conversion_factor), UnitEntry.get_conversion_factor,
 HedValidator.validate_units -> UnitValueValidator.check_tag_unit_class_units_are_valid/_check_value_class/_check_units,
 CharRexValidator.is_valid_value/get_problem_chars.
-Schema: vp.mini.MINI (`C/#`, `Duration/#`, `Delay/#`: numericClass + the REAL 8.3.0 timeUnits class, all 40 modifiers).
+Schemas: vp.mini.MINI (`C/#`: numericClass + the REAL 8.3.0 timeUnits class with all 40 modifiers) and
+vp.mini_units.MINI_U (same through the real loader, modifiers pruned to 4, extra root `M/#` with currencyUnits so that the
+prefix unit `$` is reachable).
 Reference: models/units_ref.py (tables parsed from the MediaWiki text; rules U1-U5, N1).
+
+Kernels (DESIGN.md 3/C11):  (a) agreement validation <-> conversion: value_unit_agree, prefix_unit_agree, bare_number;
+(b) accept set and conversion table against the reference: unit_accept_convert (full table, fixed number text);
+(c) numeric pattern: numeric_pattern.
 """
 from vp import reg as R
 from vp import chx, chfloat, chre_dollar
@@ -40,7 +46,11 @@ def _errors(issues):
     return [i["code"] for i in issues if i["severity"] == ErrorSeverity.ERROR]
 
 
-# ---------------------------------------------------------------- partition helpers
+# ---------------------------------------------------------------- input shapes and partition helpers
+# Every kernel takes the WHOLE tag text as one symbolic string (`C/3 ms`), constrained by `pre:` to the shape
+# <fixed head><symbolic rest>.  (Measured: building the text as "C/" + v + " " + u from two symbolic strings makes
+# every slice hed-python takes of it cost ~10x more solver calls.)
+
 # classes of the first character of a unit text (last class: everything else)
 _UC = ["s", "m", "d", "h", "y", "M", "S", "D", "H", "Y", "c", "k", "n", "p", "u"]
 NUC = len(_UC) + 1
@@ -49,39 +59,87 @@ _VC = ["0", "1", "+", "-", ".", " ", "e"]
 NVC = len(_VC) + 1
 
 
-def _ucell(u):
-    return R.scell(u, _UC)
+def _head(t, head):
+    """t starts with the constant `head`"""
+    if len(t) < len(head):
+        return False
+    for i in range(len(head)):
+        if t[i] != head[i]:
+            return False
+    return True
 
 
-def _vu_cell(v, u):
-    lv = R.env_int("VP_LV")
-    if lv is not None and len(v) != lv:
+def _none_of(t, start, chars):
+    """no character of t[start:] is in `chars`"""
+    for i in range(start, len(t)):
+        for c in chars:
+            if t[i] == c:
+                return False
+    return True
+
+
+def _tail_cell(t, off, classes, nmax, nmin=0):
+    """t[off:] has nmin..nmax characters and lies in the cell VP_LEN (exact length) / VP_C0 (class of its first
+    character)"""
+    n = len(t) - off
+    if n < nmin or n > nmax:
         return False
-    lu = R.env_int("VP_LU")
-    if lu is not None and len(u) != lu:
+    L = R.env_int("VP_LEN")
+    if L is not None and n != L:
         return False
-    c = R.env_int("VP_CV")
-    if c is not None and (len(v) < 1 or R.cls_of(v[0], _VC) != c):
+    c0 = R.env_int("VP_C0")
+    if c0 is not None and (n < 1 or R.cls_of(t[off], classes) != c0):
         return False
-    c = R.env_int("VP_CU")
-    if c is not None and (len(u) < 1 or R.cls_of(u[0], _UC) != c):
+    c1 = R.env_int("VP_C1")
+    if c1 is not None and (n < 2 or R.cls_of(t[off + 1], classes) != c1):
         return False
     return True
 
 
-def _vu_cells(nv, nu, split_v_from=None, extra=()):
-    """disjoint cover of {(v, u): len(v) <= nv, 1 <= len(u) <= nu} plus the (len v, len u) pairs in `extra`;
-    cells with len(v) >= split_v_from are split by the class of v[0]"""
-    pairs = [(lv, lu) for lv in range(0, nv + 1) for lu in range(1, nu + 1)]
-    pairs += [p for p in extra if p not in pairs]
+def _blank(t):
+    """index of the blank that separates the two parts of the extension of `X/<a> <b>` (the last one)"""
+    lv = R.env_int("VP_LV")
+    if lv is not None:
+        return 2 + lv
+    return t.rfind(" ")
+
+
+def _ab_shape(t, head, amax, bmax):
+    """t == head + a + " " + b with len(head) == 2, b non-empty and blank-free, no "/" in a or b; cell VP_LV / VP_LU
+    (exact lengths of a, b) / VP_CV (class of a[0])"""
+    if not _head(t, head):
+        return False
+    k = _blank(t)
+    if k < 2 or k >= len(t) - 1 or t[k] != " ":
+        return False
+    la = k - 2
+    lb = len(t) - k - 1
+    if la > amax or lb > bmax:
+        return False
+    lu = R.env_int("VP_LU")
+    if lu is not None and lb != lu:
+        return False
+    cv = R.env_int("VP_CV")
+    if cv is not None and (la < 1 or R.cls_of(t[2], _VC) != cv):
+        return False
+    return _none_of(t, k + 1, " ") and _none_of(t, 2, "/")
+
+
+def _ab_cells(pairs, split_a_from=None, split_b_from=99):
+    """one cell per (len a, len b) pair; cells with len(a) >= split_a_from or len(b) >= split_b_from (and a non-empty)
+    are split by the class of a[0]"""
     out = []
-    for lv, lu in pairs:
-        if split_v_from is not None and lv >= max(1, split_v_from):
+    for la, lb in pairs:
+        if la >= 1 and ((split_a_from is not None and la >= split_a_from) or lb >= split_b_from):
             for i in range(NVC):
-                out.append({"VP_LV": lv, "VP_LU": lu, "VP_CV": i})
+                out.append({"VP_LV": la, "VP_LU": lb, "VP_CV": i})
         else:
-            out.append({"VP_LV": lv, "VP_LU": lu})
+            out.append({"VP_LV": la, "VP_LU": lb})
     return out
+
+
+def _grid(amin, amax, bmax):
+    return [(la, lb) for la in range(amin, amax + 1) for lb in range(1, bmax + 1)]
 
 
 # ---------------------------------------------------------------- known findings (exact failing input classes)
@@ -136,17 +194,18 @@ def _kf_newline(v):
 
 
 # ---------------------------------------------------------------- kernels
-def unit_accept_convert(u: str) -> bool:
+def unit_accept_convert(t: str) -> bool:
     """
-    pre: 1 <= len(u) <= R.N(4)
-    pre: _ucell(u)
-    pre: R.ascii_printable(u)
-    pre: " " not in u and "/" not in u
-    pre: not _K("C11-name-case-conversion", _kf_case(_T, _CLS, u))
+    pre: _head(t, "C/3 ")
+    pre: _tail_cell(t, 4, _UC, R.N(4), 1)
+    pre: R.ascii_printable(t)
+    pre: _none_of(t, 4, " /")
+    pre: not _K("C11-name-case-conversion", _kf_case(_T, _CLS, t[4:]))
     post: _
     """
     chfloat.exact(True)                         # the number text is the constant "3": CPython's own float("3")
-    tag = HedTag("C/3 " + u, MINI)
+    u = t[4:]
+    tag = HedTag(t, MINI)
     errs = _errors(_HV.validate_units(tag))
     stripped, unit = tag.get_stripped_unit_value(tag.extension)
     val = tag.value_as_default_unit()           # must never raise
@@ -184,42 +243,37 @@ def _agree(tag, hv, table, cls, a, b):
     return isinstance(val, float)
 
 
-def value_unit_agree(v: str, u: str) -> bool:
+def value_unit_agree(t: str) -> bool:
     """
-    pre: len(v) <= 4 and 1 <= len(u) <= 8
-    pre: _vu_cell(v, u)
-    pre: R.ascii_printable(v) and R.ascii_printable(u)
-    pre: " " not in u and "/" not in v and "/" not in u
-    pre: not _K("C11-name-case-conversion", _kf_case(_TU, "timeUnits", u))
-    pre: not _K("C11-junk-before-unit", _kf_junk(_TU, "timeUnits", v, u))
-    pre: not _K("C11-empty-number-raises", _kf_empty_number(_TU, "timeUnits", v, u))
+    pre: _ab_shape(t, "C/", 4, 8)
+    pre: R.ascii_printable(t)
+    pre: not _K("C11-name-case-conversion", _kf_case(_TU, "timeUnits", t[_blank(t) + 1:]))
+    pre: not _K("C11-junk-before-unit", _kf_junk(_TU, "timeUnits", t[2:_blank(t)], t[_blank(t) + 1:]))
+    pre: not _K("C11-empty-number-raises", _kf_empty_number(_TU, "timeUnits", t[2:_blank(t)], t[_blank(t) + 1:]))
     post: _
     """
     chfloat.exact(False)
-    tag = HedTag("C/" + v + " " + u, MINI_U)
-    return _agree(tag, _HVU, _TU, "timeUnits", v, u)
+    k = _blank(t)
+    return _agree(HedTag(t, MINI_U), _HVU, _TU, "timeUnits", t[2:k], t[k + 1:])
 
 
-def prefix_unit_agree(a: str, b: str) -> bool:
+def prefix_unit_agree(t: str) -> bool:
     """
-    pre: len(a) <= 4 and 1 <= len(b) <= 8
-    pre: _vu_cell(a, b)
-    pre: R.ascii_printable(a) and R.ascii_printable(b)
-    pre: " " not in b and "/" not in a and "/" not in b
-    pre: not _K("C11-name-case-conversion", _kf_case(_TU, "currencyUnits", b))
-    pre: not _K("C11-junk-before-unit", _kf_junk(_TU, "currencyUnits", a, b))
-    pre: not _K("C11-empty-number-raises", _kf_empty_number(_TU, "currencyUnits", a, b))
+    pre: _ab_shape(t, "M/", 4, 8)
+    pre: R.ascii_printable(t)
+    pre: not _K("C11-name-case-conversion", _kf_case(_TU, "currencyUnits", t[_blank(t) + 1:]))
+    pre: not _K("C11-junk-before-unit", _kf_junk(_TU, "currencyUnits", t[2:_blank(t)], t[_blank(t) + 1:]))
+    pre: not _K("C11-empty-number-raises", _kf_empty_number(_TU, "currencyUnits", t[2:_blank(t)], t[_blank(t) + 1:]))
     post: _
     """
     chfloat.exact(False)
-    tag = HedTag("M/" + a + " " + b, MINI_U)
-    return _agree(tag, _HVU, _TU, "currencyUnits", a, b)
+    k = _blank(t)
+    return _agree(HedTag(t, MINI_U), _HVU, _TU, "currencyUnits", t[2:k], t[k + 1:])
 
 
 def numeric_pattern(v: str) -> bool:
     """
-    pre: len(v) <= R.N(4)
-    pre: R.scell(v, _VC)
+    pre: _tail_cell(v, 0, _VC, R.N(4))
     pre: not _K("C11-unicode-digits", _kf_unidigit(v))
     pre: not _K("C11-numeric-trailing-newline", _kf_newline(v))
     post: _
@@ -228,16 +282,17 @@ def numeric_pattern(v: str) -> bool:
     return got == U.is_number(v)
 
 
-def bare_number(v: str) -> bool:
+def bare_number(t: str) -> bool:
     """
-    pre: 1 <= len(v) <= R.N(4)
-    pre: R.scell(v, _VC)
-    pre: R.ascii_printable(v)
-    pre: " " not in v and "/" not in v
+    pre: _head(t, "C/")
+    pre: _tail_cell(t, 2, _VC, R.N(4), 1)
+    pre: R.ascii_printable(t)
+    pre: _none_of(t, 2, " /#")
     post: _
     """
     chfloat.exact(False)
-    tag = HedTag("C/" + v, MINI)
+    v = t[2:]
+    tag = HedTag(t, MINI)
     issues = _HV.validate_units(tag)
     if U.is_number(v):
         if [(i["code"], i["severity"]) for i in issues] != [("UNITS_MISSING", ErrorSeverity.WARNING)]:
@@ -259,21 +314,71 @@ _TT = ["hed.models.hed_tag.HedTag._get_tag_units_portion", "hed.models.hed_tag.H
        "hed.validator.util.class_util.UnitValueValidator._check_units",
        "hed.validator.util.char_util.CharRexValidator.is_valid_value"]
 
+_STUBS = ["vp.chx: ASCII-exact z3 model of str.casefold/lower (inputs are printable ASCII)",
+          "vp.chfloat: float(<symbolic text>) - acceptance decided exactly by a recogniser of CPython's float grammar; "
+          "the VALUE is CPython's own for the fixed number text of unit_accept_convert and an unconstrained float "
+          "elsewhere (no assertion depends on it)",
+          "vp.chre_dollar: CrossHair's regex model repaired so that `$` also matches before one trailing newline "
+          "(CPython semantics; stock CrossHair 0.0.110 misses it)",
+          "tags are built with HedTag(text, schema) directly (no HedString tokenizer in front)"]
+_OUT = ("unit texts longer than the bound; non-ASCII unit text; a '/' inside the value; the numeric product "
+        "number x factor for symbolic numbers and its linearity over IEEE doubles; the unit classes of the bundled "
+        "schemas other than timeUnits (and currencyUnits for the prefix unit); plural forms other than '+s'")
+
 HARNESSES = [
     R.H("unit_accept_convert", _TT,
         quick=R.tier(cells=R.str_cells(4, split1_from=2, nclass=NUC, minlen=1), env={"VP_N": 4}, timeout=300,
-                     bound="C/3 <u>, every blank-free printable-ASCII unit text u with 1 <= len(u) <= 4"),
-        what="", oracle="models/units_ref.py"),
+                     bound="tag `C/3 <u>` on MINI (real 8.3.0 timeUnits: 7 units x 40 modifiers = 73 spellings), every "
+                           "printable-ASCII unit text u without blank or '/', 1 <= len(u) <= 4"),
+        thorough=R.tier(cells=R.str_cells(8, split1_from=2, nclass=NUC, minlen=1), env={"VP_N": 8}, timeout=1500,
+                        path_timeout=60,
+                        bound="same, 1 <= len(u) <= 8 (all symbol spellings, all unprefixed names singular and plural)"),
+        what="accept set and conversion table against the reference: u spells a timeUnits unit (name singular/plural in "
+             "any letter case, symbol in exact case, with an SI prefix the unit permits) <=> validate_units reports no "
+             "error and get_stripped_unit_value returns ('3', u); otherwise UNITS_INVALID is reported and no unit is "
+             "returned; value_as_default_unit never raises and returns exactly 3.0 x unit factor x prefix factor when "
+             "the unit declares a conversion factor, None when it declares none or u is not a unit",
+        oracle="models/units_ref.py Table.match / Form.factor (rules U1-U5 over the MediaWiki text of the schema)",
+        stubs=_STUBS, outside=_OUT),
     R.H("value_unit_agree", _TT,
-        quick=R.tier(cells=_vu_cells(2, 2, split_v_from=2), timeout=300, bound=""),
-        what="", oracle="models/units_ref.py"),
+        quick=R.tier(cells=_ab_cells(_grid(0, 2, 2), split_a_from=2), timeout=300,
+                     bound="tag `C/<v> <u>` on MINI_U (real timeUnits, modifiers pruned to milli, kilo, m, M), printable "
+                           "ASCII without '/', u blank-free: len(v) <= 2, 1 <= len(u) <= 2"),
+        thorough=R.tier(cells=_ab_cells(_grid(0, 3, 4), split_a_from=1), timeout=1500, path_timeout=60,
+                        bound="same, len(v) <= 3, 1 <= len(u) <= 4"),
+        what="agreement of validation, conversion and reference on number text x unit text: validate_units reports no "
+             "error <=> v is a number (N1) and u spells a unit; no recognised unit => an error is reported (UNITS_INVALID "
+             "when v is a number) and value_as_default_unit returns None without raising; accepted => "
+             "value_as_default_unit does not raise and returns a float iff the unit declares a conversion factor",
+        oracle="models/units_ref.py Table.match, is_number", stubs=_STUBS, outside=_OUT),
     R.H("prefix_unit_agree", _TT,
-        quick=R.tier(cells=_vu_cells(2, 2, split_v_from=2, extra=[(1, 4), (1, 6)]), timeout=300, bound=""),
-        what="", oracle="models/units_ref.py"),
+        quick=R.tier(cells=_ab_cells(_grid(1, 2, 2) + [(1, 4)], split_a_from=2, split_b_from=4), timeout=300,
+                     bound="tag `M/<a> <b>` on MINI_U (M/# takes the real currencyUnits: $ {unitPrefix}, dollar, euro, "
+                           "point), printable ASCII without '/', b blank-free: 1 <= len(a) <= 2 and 1 <= len(b) <= 2, or "
+                           "len(a) == 1 and len(b) == 4"),
+        thorough=R.tier(cells=_ab_cells(_grid(1, 3, 2) + [(1, 4), (1, 5), (1, 6), (2, 4)], split_a_from=1), timeout=1500,
+                        path_timeout=60,
+                        bound="same: 1 <= len(a) <= 3 and 1 <= len(b) <= 2, or (len a, len b) in (1,4),(1,5),(1,6),(2,4)"),
+        what="same agreement where the unit class has a prefix unit: accepted <=> (a is a number and b spells a unit "
+             "written behind the number) or (a spells a unitPrefix unit and b is a number); `3 $` and `dollar 3` are "
+             "rejected; value defined iff accepted and the unit declares a conversion factor",
+        oracle="models/units_ref.py Table.match (rule U4), is_number", stubs=_STUBS, outside=_OUT),
     R.H("numeric_pattern", ["hed.validator.util.char_util.CharRexValidator.is_valid_value"],
-        quick=R.tier(cells=R.str_cells(4, nclass=NVC), env={"VP_N": 4}, timeout=300, bound=""),
-        what="", oracle="models/units_ref.py"),
+        quick=R.tier(cells=R.str_cells(4, split1_from=4, nclass=NVC), env={"VP_N": 4}, timeout=300,
+                     bound="every Unicode string v with len(v) <= 4"),
+        thorough=R.tier(cells=R.str_cells(6, split1_from=3, split2_from=5, nclass=NVC), env={"VP_N": 6}, timeout=1500,
+                        path_timeout=60, bound="every Unicode string v with len(v) <= 6"),
+        what="CharRexValidator.is_valid_value(v, 'numericClass') (the pattern of class_regex.json that decides numeric "
+             "values) accepts v <=> v is [+-]?(d+(.d*)?|.d+)([eE][+-]?d+)? over the ten ASCII digits",
+        oracle="models/units_ref.py is_number (hand-written recogniser, rule N1)",
+        stubs=[_STUBS[2]], outside="strings longer than the bound; the legacy helper is_numeric_value_class (not on the "
+                                   "validation path)"),
     R.H("bare_number", _TT,
-        quick=R.tier(cells=R.str_cells(4, nclass=NVC, minlen=1), env={"VP_N": 4}, timeout=300, bound=""),
-        what="", oracle="models/units_ref.py"),
+        quick=R.tier(cells=R.str_cells(4, split1_from=4, nclass=NVC, minlen=1), env={"VP_N": 4}, timeout=300,
+                     bound="tag `C/<v>` on MINI, printable ASCII v without blank, '/' or '#', 1 <= len(v) <= 4"),
+        thorough=R.tier(cells=R.str_cells(5, split1_from=3, nclass=NVC, minlen=1), env={"VP_N": 5}, timeout=1500,
+                        path_timeout=60, bound="same, 1 <= len(v) <= 5"),
+        what="a bare value: v is a number (N1) <=> validate_units reports exactly one issue, the UNITS_MISSING warning, "
+             "and value_as_default_unit returns a float (default unit); otherwise an error is reported",
+        oracle="models/units_ref.py is_number", stubs=_STUBS, outside=_OUT + "; the placeholder '#'"),
 ]
